@@ -132,7 +132,7 @@ from checks.c10 import MODELS as BOX_MODELS   # noqa: E402  (Box<str> helpers)
 
 
 def run_union(rep, prog, pid):
-    rep.bounds['union'] = ('documents of <= 3 members, keys from {type, integer, obj, zzz, yyy} (two listed variants, two different unlisted names) in every order, '
+    rep.bounds['union'] = (f'documents of <= {NMAX} members, keys from {{type, integer, obj, zzz, yyy}} (two listed variants, two different unlisted names) in every order, '
                            'type value from the same names, payload decoding succeeding or failing; default and exhaustive configuration')
     for cfg in ('types', 'exhaustive_types'):
         vm = [k for k in find_fns(prog, 'visit_map', inpath=f'{gentypes.CRATE}::{cfg}::p::test_union::') if 'Visitor_' in prog.fns[k].args[0][1]]
@@ -245,6 +245,10 @@ def py_union_spec(members, exhaustive):
 
 
 def run(rep, tier):
+    global NMAX
+    from checks import c02obj
+    NMAX = 3 if tier == 'quick' else 4            # thorough: union documents of <= 4 members, object documents of <= 5
+    c02obj.NMAX = 4 if tier == 'quick' else 5
     prog = gentypes.types_program()
     with rep.part('union deserialize'):
         run_union(rep, prog, 'C02')
